@@ -1,3 +1,4 @@
+import DnpModel.Proc.Stamps
 import DnpProofs.Lemmas.Consistent2
 import DnpProofs.Lemmas.Store
 import DnpProofs.Lemmas.Hist
@@ -289,6 +290,195 @@ theorem model_procs_append (arange : Nat → List κ) (dist : κ → κ → κ) 
         · split at h
           · simp only [Except.ok.injEq] at h; subst h
             exact ⟨_, [], rfl⟩
+          · cases h
+
+
+/-- the stronger form: the appended entry is exactly `(name, keys)` -/
+def AppendsWith (F : Data κ α → Except Err (Data κ α)) (name : String) (keys : List String) : Prop :=
+  ∀ d d', F d = .ok d' → ∃ rest, d'.hist = d.hist ++ (name, keys) :: rest
+
+theorem AppendsWith.appends {F : Data κ α → Except Err (Data κ α)} {name : String} {keys : List String}
+    (h : AppendsWith F name keys) : Appends F name :=
+  fun d d' hd => let ⟨rest, hr⟩ := h d d' hd; ⟨keys, rest, hr⟩
+
+theorem appendsWith_of_keep {F : Data κ α → Except Err (Data κ α)} {G : Data κ α → Except Err (Data κ α)}
+    (name : String) (keys : List String)
+    (hG : ∀ d r, G d = .ok r → r.hist = d.hist)
+    (hF : ∀ d, F d = (G d).bind (fun r => .ok (r.addHist name keys))) : AppendsWith F name keys := by
+  intro d d' h
+  rw [hF] at h
+  cases hg : G d with
+  | error e => rw [hg] at h; cases h
+  | ok r =>
+    rw [hg] at h
+    simp only [Except.bind, Except.ok.injEq] at h
+    subst h
+    exact ⟨[], by simp [addHist, hG d r hg]⟩
+
+/-- every entry of the model's stamp table occurs, for the same source function, among the `add_proc_attrs` calls that
+    tools/extract_tables.py finds in /repo's processing modules on THIS run (a renamed step or a dropped / added
+    parameter key in the source breaks this obligation) -/
+theorem model_stamps_in_source : ∀ e ∈ Dnp.modelStamps, e ∈ Dnp.Generated.procStamps := by decide +kernel
+
+/-- the step names of `model_procs_stamp` are those of the table -/
+theorem model_stamp_names :
+    Dnp.modelStamps.map (fun e => (e.1, e.2.1)) =
+      [("phase", "phase_correction"), ("autophase", "autophase"), ("phase_cycle", "phasecycle"),
+       ("fourier_transform", "fourier_transform"), ("inverse_fourier_transform", "inverse_fourier_transform"),
+       ("integrate", "integrate"), ("cumulative_integrate", "cumlative_integrate"), ("left_shift", "left_shift"),
+       ("reference", "reference"), ("normalize", "normalized"), ("interp", "interp"), ("average", "average"),
+       ("ndalign", "ndalign"), ("calculate_enhancement", "calculate_enhancement")] := by decide +kernel
+
+/-- the same with the RECORDED PARAMETER NAMES: each processing function of the model returns the input's complete history
+    followed by the entry `stampOf <source function>` of the table `Dnp.modelStamps` — the step name and parameter keys that
+    `model_stamps_in_source` finds, function by function, in the regenerated table of `add_proc_attrs` calls of /repo -/
+theorem model_procs_stamp (arange : Nat → List κ) (dist : κ → κ → κ) (dim : String) :
+    (∀ valid kind keys w, AppendsWith (fun d : Data κ α => d.apodize A valid dim kind keys w) "window" keys) ∧
+    (∀ cis, AppendsWith (fun d : Data κ α => d.phase A arange dim cis) "phase_correction" ["p0", "p1", "pivot"]) ∧
+    (∀ cis, AppendsWith (fun d : Data κ α => d.autophase A arange dim cis) "autophase" ["deriv", "dim", "gamma", "phasetuples", "reference_slice"]) ∧
+    (∀ rp ni, AppendsWith (fun d : Data κ α => d.phaseCycle A dim rp ni) "phasecycle" ["dim", "receiver_phase"]) ∧
+    (∀ zff shift ppm tw, AppendsWith (fun d : Data κ α => d.fourierTransform A dim zff shift ppm tw) "fourier_transform" ["convert_to_ppm", "dim", "shift", "zero_fill_factor"]) ∧
+    (∀ zff shift ppm tw, AppendsWith (fun d : Data κ α => d.inverseFourierTransform A dim zff shift ppm tw) "inverse_fourier_transform" ["convert_from_ppm", "dim", "shift", "zero_fill_factor"]) ∧
+    AppendsWith (fun d : Data κ α => integrateAll A d dim) "integrate" ["dim", "regions"] ∧
+    (∀ regions, AppendsWith (fun d : Data κ α => integrateRegions A arange dist d dim regions) "integrate" ["dim", "regions"]) ∧
+    AppendsWith (fun d : Data κ α => d.cumulativeIntegrate A dim) "cumlative_integrate" ["dim", "regions"] ∧
+    (∀ n, AppendsWith (fun d : Data κ α => d.leftShift A dist dim n) "left_shift" ["dim", "points"]) ∧
+    (∀ shift, AppendsWith (fun d : Data κ α => d.reference A dim shift) "reference" ["dim", "new_ref", "old_ref"]) ∧
+    (∀ od, AppendsWith (fun d : Data κ α => d.normalize A arange od) "normalized" ["amplitude"]) ∧
+    (∀ newc, AppendsWith (fun d : Data κ α => d.interp A arange dim newc) "interp" ["dim", "left", "new_coord", "right"]) ∧
+    (∀ mean ax, AppendsWith (fun d : Data κ α => d.average mean ax) "average" ["axis"]) ∧
+    AppendsWith (fun d : Data κ α => d.ndalign A arange dim) "ndalign" ["dim"] ∧
+    (∀ idx re, AppendsWith (fun d : Data κ α => d.enhancement A idx re) "calculate_enhancement" ["off_spectrum_index", "return_complex_values"]) := by
+  refine ⟨?_, ?_, ?_, ?_, ?_, ?_, ?_, ?_, ?_, ?_, ?_, ?_, ?_, ?_, ?_, ?_⟩
+  · intro valid kind keys w d d' h
+    simp only [Data.apodize] at h
+    split at h
+    · cases h
+    · split at h
+      · cases h
+      · simp only [bind, Except.bind] at h
+        split at h
+        · cases h
+        · rename_i r hr
+          simp only [Except.ok.injEq] at h; subst h
+          exact ⟨[], by simp [addHist, scaleAlong_hist A.mul w hr]⟩
+  · intro cis
+    exact appendsWith_of_keep (G := fun d => d.bracket arange dim _ (d.ext dim) none) _ _
+      (fun d r h => bracket_hist arange _ _ _ h) (fun d => by simp only [Data.phase, bind]; rfl)
+  · intro cis
+    exact appendsWith_of_keep (G := fun d => d.bracket arange dim _ (d.ext dim) none) _ _
+      (fun d r h => bracket_hist arange _ _ _ h) (fun d => by simp only [Data.autophase, bind]; rfl)
+  · intro rp ni d d' h
+    simp only [Data.phaseCycle] at h
+    split at h
+    · cases h
+    · split at h
+      · cases h
+      · split at h
+        · cases h
+        · simp only [bind, Except.bind] at h
+          split at h
+          · cases h
+          · rename_i r hr
+            simp only [Except.ok.injEq] at h; subst h
+            exact ⟨[], by show r.hist ++ [_] = _; rw [scaleAlong_hist A.mul _ hr]⟩
+  · intro zff shift ppm tw d d' h
+    simp only [Data.fourierTransform] at h
+    split at h
+    · cases h
+    · split at h
+      · cases h
+      · split at h
+        · cases h
+        · simp only [Except.ok.injEq] at h; subst h
+          exact ⟨[], rfl⟩
+  · intro zff shift ppm tw d d' h
+    simp only [Data.inverseFourierTransform] at h
+    split at h
+    · cases h
+    · split at h
+      · cases h
+      · split at h
+        · cases h
+        · simp only [Except.ok.injEq] at h; subst h
+          exact ⟨[], rfl⟩
+  · intro d d' h
+    simp only [integrateAll, bind, Except.bind] at h
+    split at h
+    · cases h
+    · rename_i r hr
+      simp only [Except.ok.injEq] at h; subst h
+      exact ⟨[], by show r.hist ++ [_] = _; rw [reduceDim_hist _ hr]⟩
+  · intro regions d d' h
+    simp only [integrateRegions, bind, Except.bind] at h
+    split at h
+    · cases h
+    · split at h
+      · cases h
+      · split at h
+        · cases h
+        · simp only [Except.ok.injEq] at h; subst h
+          exact ⟨[], rfl⟩
+  · exact appendsWith_of_keep (G := fun d => d.mapAlong dim _ (d.ext dim) none) _ _
+      (fun d r h => mapAlong_hist _ _ _ h) (fun d => by simp only [Data.cumulativeIntegrate, bind]; rfl)
+  · intro n
+    exact appendsWith_of_keep (G := fun d => d.getitem dist A.klt _) _ _
+      (fun d r h => getitem_hist dist A.klt h) (fun d => by simp only [Data.leftShift, bind]; rfl)
+  · intro shift d d' h
+    simp only [Data.reference] at h
+    split at h
+    · cases h
+    · simp only [Except.ok.injEq] at h; subst h
+      exact ⟨[], rfl⟩
+  · intro od d d' h
+    cases od with
+    | none =>
+      simp only [Data.normalize, Except.ok.injEq] at h; subst h
+      exact ⟨[], rfl⟩
+    | some dm =>
+      simp only [Data.normalize] at h
+      split at h
+      · cases h
+      · simp only [bind, Except.bind] at h
+        split at h
+        · cases h
+        · rename_i r hr
+          simp only [Except.ok.injEq] at h; subst h
+          exact ⟨[], by show r.hist ++ [_] = _; rw [bracket_hist arange _ _ _ hr]⟩
+  · intro newc
+    exact appendsWith_of_keep (G := fun d => d.bracket arange dim _ newc.length (some newc)) _ _
+      (fun d r h => bracket_hist arange _ _ _ h) (fun d => by simp only [Data.interp, bind]; rfl)
+  · intro mean ax d d' h
+    simp only [Data.average] at h
+    split at h
+    · cases h
+    · cases h
+    · simp only [Except.ok.injEq] at h; subst h
+      exact ⟨[], rfl⟩
+  · intro d d' h
+    simp only [Data.ndalign] at h
+    split at h
+    · cases h
+    · simp only [bind, Except.bind] at h
+      split at h
+      · cases h
+      · rename_i r hr
+        simp only [Except.ok.injEq] at h; subst h
+        exact ⟨[], by show r.hist ++ [_] = _; rw [bracketAll_hist arange _ hr]⟩
+  · intro idx re d d' h
+    simp only [Data.enhancement] at h
+    split at h
+    · cases h
+    · split at h
+      · cases h
+      · split at h
+        · split at h
+          · cases h
+          · simp only [Except.ok.injEq] at h; subst h
+            exact ⟨[], rfl⟩
+        · split at h
+          · simp only [Except.ok.injEq] at h; subst h
+            exact ⟨[], rfl⟩
           · cases h
 
 end Dnp.C11
